@@ -156,3 +156,102 @@ func StakingEvents(t int, sc *Scenario, tr *Transcript) []StakingEvent {
 	}
 	return evs
 }
+
+// ---------------------------------------------------------------------------------
+// NetDelegation_Trace events (C12)
+
+type DelegTx struct {
+	K     string `json:"k"`
+	D     string `json:"d"`
+	To    string `json:"to"`
+	A     int64  `json:"a"`
+	Fee   int64  `json:"fee"`
+	Payer string `json:"payer"`
+}
+
+type DelegState struct {
+	Act   map[string]int64            `json:"act"`
+	Pend  map[string]map[string]int64 `json:"pend"`
+	Claim map[string]int64            `json:"claim"`
+	CPend map[string]map[string]int64 `json:"cpend"`
+	Bal   map[string]int64            `json:"bal"`
+}
+
+type DelegEvent struct {
+	T        int        `json:"t"`
+	Ev       string     `json:"ev"`
+	H        int64      `json:"h"`
+	Maturity int64      `json:"maturity"`
+	Allow    int64      `json:"allow"`
+	Txs      []DelegTx  `json:"txs"`
+	S        DelegState `json:"s"`
+	Other    []string   `json:"other"` // accepted transactions of kinds the specification does not know
+}
+
+func delegState(s *AbsState) DelegState {
+	bal := map[string]int64{}
+	for o, m := range s.Bal {
+		if v, ok := m["OLT"]; ok {
+			bal[o] = v
+		}
+	}
+	return DelegState{Act: s.DelegAct, Pend: s.DelegPend, Claim: s.DelegRw, CPend: s.DelegRwP, Bal: bal}
+}
+
+var poolOwner = map[string]string{
+	"DelegationPool": "pool:delegation", "RewardsPool": "pool:" + RewardPoolAddr, "BountyPool": "pool:" + BountyAddr, "FeePool": "pool:fee",
+}
+
+func feeOf(tx TxRecord) int64 {
+	price := tx.Req.Price
+	if price == 0 {
+		price = 1
+	}
+	return tx.Deliver.GasUsed * price
+}
+
+func DelegEvents(t int, sc *Scenario, tr *Transcript) []DelegEvent {
+	if tr.InitState == nil {
+		return nil
+	}
+	evs := []DelegEvent{{T: t, Ev: "Init", S: delegState(tr.InitState), Txs: []DelegTx{}, Other: []string{}}}
+	prev := tr.InitState
+	for _, b := range tr.Blocks {
+		if b.State == nil {
+			break
+		}
+		e := DelegEvent{T: t, Ev: "Block", H: b.H, Maturity: optInt(prev, "networkdelegopt", "rewardsMaturityTime"), S: delegState(b.State), Txs: []DelegTx{}, Other: []string{}}
+		for _, ev := range b.Events {
+			if ev.Type == "block_rewards" {
+				if v, ok := ev.Attrs["0lt"+Hex([]byte(DelegationPoolKey))]; ok {
+					fmt.Sscan(v, &e.Allow)
+				}
+			}
+		}
+		for _, tx := range b.Txs {
+			if !accepted(tx) {
+				continue
+			}
+			a, ok := argInt(tx.Req, "amt")
+			d := DelegTx{A: a, Fee: feeOf(tx), Payer: tx.FeePay}
+			switch tx.Req.Kind {
+			case "DELEGATE", "UNDELEGATE", "DELEG_WITHDRAW", "DELEG_REINVEST":
+				d.K, d.D = tx.Req.Kind, tx.Req.S("d")
+			case "SEND":
+				d.K, d.D, d.To = "SEND", tx.Req.S("from"), tx.Req.S("to")
+			case "SENDPOOL":
+				d.K, d.D, d.To = "SEND", tx.Req.S("from"), poolOwner[tx.Req.S("pool")]
+			default:
+				e.Other = append(e.Other, tx.Req.Kind)
+				continue
+			}
+			if !ok {
+				e.Other = append(e.Other, tx.Req.Kind+":unrepresentable-amount")
+			}
+			e.Txs = append(e.Txs, d)
+		}
+		evs = append(evs, e)
+		prev = b.State
+	}
+	return evs
+}
